@@ -412,6 +412,7 @@ pub fn inside<R>(outer: Outer, at: u8, f: impl FnOnce() -> R) -> R {
             }
         }
     }
+    LAST_INSIDE_NESTED.with(|c| c.set(out.is_some()));
     match out {
         Some(Ok(r)) => r,
         Some(Err(p)) => std::panic::resume_unwind(p),
@@ -420,6 +421,16 @@ pub fn inside<R>(outer: Outer, at: u8, f: impl FnOnce() -> R) -> R {
             None => unreachable!("the callback ran without leaving a result"),
         },
     }
+}
+
+thread_local! {
+    static LAST_INSIDE_NESTED: std::cell::Cell<bool> = const { std::cell::Cell::new(false) };
+}
+
+/// Did the last `inside` on this thread run its case nested (rather than
+/// after an outer call that made fewer seam calls)? For the self-test.
+pub fn last_inside_was_nested() -> bool {
+    LAST_INSIDE_NESTED.with(|c| c.get())
 }
 
 pub fn run_warm(w: Warm) {
